@@ -103,6 +103,20 @@ func runHarness(w *World, fn *ssa.Function, cfg RunConfig, twin bool) *HarnessRe
 		hr.SymFuncs = append(hr.SymFuncs, k)
 	}
 	sort.Strings(hr.SymFuncs)
+	if len(ex.forkSites) > 0 {
+		type kv struct {
+			k string
+			v int64
+		}
+		var l []kv
+		for k, v := range ex.forkSites {
+			l = append(l, kv{k, v})
+		}
+		sort.Slice(l, func(i, j int) bool { return l[i].v > l[j].v })
+		for i := 0; i < len(l) && i < 15; i++ {
+			fmt.Fprintf(os.Stderr, "  fork site %6d  %s\n", l[i].v, l[i].k)
+		}
+	}
 	if ex.byKind[oUnsupported] > 0 || ex.byKind[oLimit] > 0 || ex.byKind[oUnknown] > 0 || ex.hitLimit != "" {
 		hr.Inconcl = true
 	}
@@ -112,14 +126,30 @@ func runHarness(w *World, fn *ssa.Function, cfg RunConfig, twin bool) *HarnessRe
 func runPath(w *World, fn *ssa.Function, ex *Explorer, s *Solver, prefix []decision, cfg RunConfig, twin bool, wantSample bool) (res *pathResult, symCalls map[string]bool) {
 	tp := NewTermPool()
 	p := &Path{ex: ex, solver: s, tp: tp, prefix: prefix}
+	if os.Getenv("SYMGO_FORKS") != "" {
+		p.where = func() string { return "" }
+	}
 	s.Reset(tp)
 	in := w.newInterp(p, tp)
+	if p.where != nil {
+		p.where = func() string {
+			if in.top == nil {
+				return "?"
+			}
+			pos := ""
+			if in.curInstr != nil {
+				pos = in.prog.Fset.Position(in.curInstr.Pos()).String()
+			}
+			return in.top.fn.Name() + " " + pos
+		}
+	}
 	in.harness = fn.String()
 	in.thorough = cfg.Thorough
 	in.mapOrderBudget = 0
 	res = &pathResult{prefixLen: len(prefix)}
 	defer func() {
 		res.decisions = len(p.trace)
+		res.forks = p.forks
 		res.reach = in.reach
 		res.notes = in.notes
 		res.steps = in.steps
